@@ -1,9 +1,9 @@
 """C11 — Control-flow obfuscation preserves function behaviour."""
 import os, re
-import vlib, e2e
+import vlib, e2e, cf_graph
 
 THEOREMS = ["C11_dispatch_finds_target", "C11_dispatch_no_spurious_target", "C11_phi_sequential_equals_parallel", "C11_phi_swap_refuted",
-            "C11_trash_guard_never_true"]
+            "C11_trash_guard_never_true", "C11_flatten_equivalent", "C11_flatten_checked_instance", "C11_flatten_example", "C11_flatten_zero_key_refuted"]
 
 DIRECTIVES = {
     "flatten1": "flatten_passes=1",
@@ -303,8 +303,11 @@ def run(res, tier, seed, replay):
     ok, msg = vlib.run_translators()
     proofs_ok = ok and vlib.check_proofs(res, "C11", "Properties/C11.v", THEOREMS)
     res.cov["trusted_base"] += vlib.TRUSTED_COMMON + [
-        "NOT proved: the CFG passes themselves (splitting, junk, flattening as graph transformations) and ssa2ast's instruction templates; they are exercised by the "
-        "differential program only. Proved: the dispatcher lookup the flattening relies on, the phi-lowering condition, the trash guard.",
+        "Proved: applyFlattening as a graph transformation preserves and reflects every run, for every graph, block bodies, conditions and distinct non-zero keys "
+        "(C11_flatten_equivalent); tied to the code by dumping the real applyFlattening's input and output graphs (injected oracle, SSA built as garble builds it) and "
+        "evaluating the model's flatten on the same input inside Coq (C11_flatten_checked_instance). Also proved: the dispatcher lookup, the phi-lowering condition, the trash guard.",
+        "NOT proved: splitting, junk jumps and trash blocks as graph transformations, the hardening of dispatcher keys, ssa2ast's instruction templates and its reading of a "
+        "block graph (body, phi assignments of the successors, terminator), which the Flatten model assumes; these are exercised by the differential program only.",
         "differential runs of a function catalogue under several directive parameter sets and seeds against the regular build"]
     res.assumptions = ["a build error (including a garble panic) counts as 'rejected, not silently changed'"]
     try:
@@ -312,6 +315,7 @@ def run(res, tier, seed, replay):
     except vlib.BuildError as e:
         res.violation("garble-build", "garble no longer builds: %s" % str(e)[-800:], {"error": str(e)}, found_input=False)
         return
+    graph_instances = cf_graph.run(res, garble, tier, seed)
     names = list(DIRECTIVES)
     if tier == "quick":
         names = ["flatten1", "junk-split", ["flatten2-xor", "all", "split-max", "trash"][seed % 4]]
@@ -351,7 +355,7 @@ def run(res, tier, seed, replay):
                 res.violation("behaviour:%s:exit" % name, "//garble:controlflow %s (%s): exit status/output length differ (%d vs %d): %s" % (d, sd, want[0], got[0], got[2][-200:]),
                               {"files": files, "directive": d, "seed": sd})
     caches.remove()
-    res.cov["evaluations"] = runs
+    res.cov["evaluations"] = runs + graph_instances
     res.cov["rejected_builds"] = rejected
     res.cov["distinct_nontrivial"] = runs - len(rejected)
     res.cov["rule"] = ("11 functions marked //garble:controlflow (loops, branches, switch, range over slice/ASCII string, defer/recover with traced side effects, closures with "
